@@ -41,7 +41,7 @@ var reflowWidths = []int{1, 20, 40, 80}
 
 type scope struct {
 	MaxBlocks, MaxKids, MaxItems, MaxDepth, MaxInl, MaxNodes, MaxAtoms int
-	Atoms, Joins, Leaves, Indents, Quotes, Lists, Atx, Trails, Wheel, AtomWheel string
+	Atoms, Joins, Leaves, Indents, Quotes, Lists, Atx, Trails, Wheel, AtomWheel, Gaps string
 	Invariants                                                           []string
 }
 
@@ -49,8 +49,8 @@ func (s scope) cfg() []byte {
 	var b strings.Builder
 	fmt.Fprintf(&b, "CONSTANTS\n MaxBlocks = %d\n MaxKids = %d\n MaxItems = %d\n MaxDepth = %d\n MaxInl = %d\n MaxNodes = %d\n MaxAtoms = %d\n",
 		s.MaxBlocks, s.MaxKids, s.MaxItems, s.MaxDepth, s.MaxInl, s.MaxNodes, s.MaxAtoms)
-	fmt.Fprintf(&b, " AtomPool <- %s\n JoinSet <- %s\n LeafPool <- %s\n Indents = %s\n QuoteShapes <- %s\n ListShapes <- %s\n AtxShapes <- %s\n Trails = %s\n KindWheel <- %s\n AtomWheel <- %s\n",
-		s.Atoms, s.Joins, s.Leaves, s.Indents, s.Quotes, s.Lists, s.Atx, s.Trails, s.Wheel, s.AtomWheel)
+	fmt.Fprintf(&b, " AtomPool <- %s\n JoinSet <- %s\n LeafPool <- %s\n Indents = %s\n QuoteShapes <- %s\n ListShapes <- %s\n AtxShapes <- %s\n Trails = %s\n KindWheel <- %s\n AtomWheel <- %s\n Gaps = %s\n",
+		s.Atoms, s.Joins, s.Leaves, s.Indents, s.Quotes, s.Lists, s.Atx, s.Trails, s.Wheel, s.AtomWheel, s.Gaps)
 	b.WriteString("INIT Init\nNEXT Next\n")
 	for _, inv := range s.Invariants {
 		fmt.Fprintf(&b, "INVARIANT %s\n", inv)
@@ -61,7 +61,7 @@ func (s scope) cfg() []byte {
 func (s scope) describe() map[string]any {
 	return map[string]any{"MaxBlocks": s.MaxBlocks, "MaxKids": s.MaxKids, "MaxItems": s.MaxItems, "MaxDepth": s.MaxDepth,
 		"MaxInl": s.MaxInl, "MaxNodes": s.MaxNodes, "MaxAtoms": s.MaxAtoms, "atoms": s.Atoms, "joins": s.Joins,
-		"leaves": s.Leaves, "indents": s.Indents, "quotes": s.Quotes, "lists": s.Lists, "atx": s.Atx, "trails": s.Trails}
+		"leaves": s.Leaves, "indents": s.Indents, "gaps": s.Gaps, "quotes": s.Quotes, "lists": s.Lists, "atx": s.Atx, "trails": s.Trails}
 }
 
 var allInvariants = []string{"TypeOK", "PartialOK", "FinishedOK", "Emit"}
@@ -69,15 +69,23 @@ var allInvariants = []string{"TypeOK", "PartialOK", "FinishedOK", "Emit"}
 // exhaustive small scopes
 func tinyScope() scope { // every placement of two nodes / two atoms over the tiny pools
 	return scope{2, 1, 2, 1, 2, 2, 2, "TinyAtoms", "CoreJoins", "TinyLeaves", "{0}", "TinyQuotes", "TinyLists", "TinyAtx",
-		"{TRUE}", "FlatWheel", "FlatAtomWheel", allInvariants}
+		"{TRUE}", "FlatWheel", "FlatAtomWheel", "{0}", allInvariants}
 }
 func coreFlatScope() scope { // the same shape over the larger core pools
 	return scope{2, 1, 2, 1, 2, 2, 2, "CoreAtoms", "CoreJoins", "CoreLeaves", "{0}", "CoreQuotes", "CoreLists", "TinyAtx",
-		"{TRUE}", "FlatWheel", "FlatAtomWheel", allInvariants}
+		"{TRUE}", "FlatWheel", "FlatAtomWheel", "{0}", allInvariants}
+}
+func blankStartScope() scope { // empty items / items starting with a blank line, 1 or 2 blank lines, indented paragraph after; top level, in quotes, in items
+	return scope{2, 2, 2, 2, 1, 3, 1, "WordOnly", "SpOnly", "NoLeaves", "{0, 2, 3}", "TinyQuotes", "BlankLists", "TinyAtx",
+		"{TRUE}", "BlankWheel", "WordWheel", "{0, 1}", allInvariants}
+}
+func linkTailScope() scope { // one paragraph of <= 2 atoms: link / image destinations over parentheses in every order, titles in three styles
+	return scope{1, 1, 1, 1, 2, 1, 2, "TailAtoms", "SpOnly", "NoLeaves", "{0}", "TinyQuotes", "TinyLists", "TinyAtx",
+		"{TRUE}", "ParaWheel", "TailWheel", "{0}", allInvariants}
 }
 func lineStartScope() scope { // one paragraph of <= 2 atoms: a word and tokens that look like block starts, soft breaks as written
 	return scope{1, 1, 1, 1, 2, 1, 2, "LineStartAtoms", "LineJoins", "NoLeaves", "{0}", "TinyQuotes", "TinyLists", "TinyAtx",
-		"{TRUE}", "ParaWheel", "LineAtomWheel", allInvariants}
+		"{TRUE}", "ParaWheel", "LineAtomWheel", "{0}", allInvariants}
 }
 
 // small widths at which a token in the middle of a short line lands at the start of a wrapped line
@@ -86,13 +94,13 @@ var lineStartWidths = []int{3, 5, 8}
 
 func tinyDeepScope() scope { // three nodes, nesting depth two, one-atom paragraphs, over the tiny pools
 	return scope{2, 1, 2, 2, 1, 3, 2, "TinyAtoms", "CoreJoins", "TinyLeaves", "{0}", "TinyQuotes", "TinyLists", "TinyAtx",
-		"{TRUE}", "FlatWheel", "FlatAtomWheel", allInvariants}
+		"{TRUE}", "FlatWheel", "FlatAtomWheel", "{0}", allInvariants}
 }
 
 // random larger scope (-simulate)
 func simScope() scope {
 	return scope{3, 2, 2, 2, 3, 6, 9, "FullAtoms", "AllJoins", "FullLeaves", "{0, 1, 3}", "FullQuotes", "FullLists", "FullAtx",
-		"{TRUE, FALSE}", "FullWheel", "FullAtomWheel", []string{"FinishedOK", "Emit"}}
+		"{TRUE, FALSE}", "FullWheel", "FullAtomWheel", "{0, 1}", []string{"FinishedOK", "Emit"}}
 }
 
 type genDoc struct {
@@ -348,7 +356,7 @@ func run(c *lib.Ctx) error {
 		name string
 		sc   scope
 	}
-	exhs := []named{{"tiny", tinyScope()}, {"line-starts", lineStartScope()}}
+	exhs := []named{{"tiny", tinyScope()}, {"line-starts", lineStartScope()}, {"blank-start", blankStartScope()}, {"link-tails", linkTailScope()}}
 	if c.Thorough() {
 		exhs = append(exhs, named{"core-flat", coreFlatScope()}, named{"tiny-deep", tinyDeepScope()})
 	}
@@ -356,8 +364,8 @@ func run(c *lib.Ctx) error {
 	if c.Thorough() {
 		sim.MaxDepth, sim.MaxNodes, sim.MaxAtoms = 3, 7, 10
 	}
-	nSim := c.Pick(2, 6)
-	perSim := c.Pick(220, 3500)
+	nSim := c.Pick(1, 6)
+	perSim := c.Pick(400, 3500)
 	bounds := map[string]any{"random": sim.describe(), "random_runs": nSim, "random_traces_per_run": perSim, "reflow_widths": reflowWidths, "line_start_extra_widths": lineStartWidths, "seeded_width_per_document": "2..16"}
 	for _, e := range exhs {
 		bounds["exhaustive "+e.name] = e.sc.describe()
